@@ -129,6 +129,9 @@ struct UnitReq {
     /// R24: emit the selected associated fn(s) as free functions (they use no impl generics)
     #[serde(default)]
     hoist: bool,
+    /// R25 without the parent: emit only the outlined fragments of this fn
+    #[serde(default)]
+    fragments_only: bool,
     /// closure body hashes recorded when the contracts were written (None: no record, nothing is "new")
     #[serde(default)]
     known_closures: Option<Vec<String>>,
@@ -1404,6 +1407,30 @@ struct Outliner {
     call: Expr,
     found: Option<Expr>,
 }
+/// positional fragment: the scrutinee of the (first) `if let <pat> = <scrutinee>` whose pattern is `pat`,
+/// whatever its text is (so a changed scrutinee is still outlined and verified, not a lost anchor)
+struct ScrutineeOutliner {
+    pat: String,
+    call: Expr,
+    found: Option<Expr>,
+}
+impl VisitMut for ScrutineeOutliner {
+    fn visit_item_mut(&mut self, _i: &mut Item) {}
+    fn visit_expr_mut(&mut self, e: &mut Expr) {
+        if self.found.is_none() {
+            if let Expr::If(ei) = e {
+                if let Expr::Let(l) = &mut *ei.cond {
+                    if norm_m(&l.pat.to_token_stream()) == self.pat {
+                        let orig = std::mem::replace(&mut *l.expr, self.call.clone());
+                        self.found = Some(orig);
+                        return;
+                    }
+                }
+            }
+        }
+        visit_mut::visit_expr_mut(self, e);
+    }
+}
 impl VisitMut for Outliner {
     fn visit_item_mut(&mut self, _i: &mut Item) {}
     fn visit_expr_mut(&mut self, e: &mut Expr) {
@@ -2155,8 +2182,65 @@ fn process_unit(job: &Job, ctx: &Ctx, u: &UnitReq, uidx: usize, vac: bool) -> Un
                     f.vis = parse_quote!(pub);
                     out.rewrites.push(RewriteLog { rule: "R21".into(), line: line_of(&f.sig), detail: "visibility widened to pub".into() });
                 }
+                if u.fragments_only {
+                    // R25 on a function that is itself NOT under contract: only the outlined fragments are
+                    // emitted (verbatim, each as a helper fn verified against its own contract); the rest of
+                    // the function is dropped and stays unverified.
+                    let mut texts: Vec<String> = vec![];
+                    for (oi, ol) in spec.outlines.iter().enumerate() {
+                        let call: Expr = match syn::parse_str(&ol.call) {
+                            Ok(c) => c,
+                            Err(e) => { out.error = Some(format!("outline {} call unparsable: {}", ol.name, e)); continue; }
+                        };
+                        let found = if let Some(pat) = ol.original.trim().strip_prefix("@scrutinee ") {
+                            let mut o = ScrutineeOutliner { pat: norm_str(pat).unwrap_or_default(), call, found: None };
+                            o.visit_block_mut(&mut f.block);
+                            o.found
+                        } else {
+                            let mut o = Outliner { target: norm_str(&ol.original).unwrap_or_default(), call, found: None };
+                            o.visit_block_mut(&mut f.block);
+                            o.found
+                        };
+                        let mut orig = match found {
+                            None => {
+                                let e = format!("lost-anchor: outlined fragment {} not found in {}", ol.name, f.sig.ident);
+                                out.error = Some(match out.error.take() { Some(x) => format!("{}; {}", x, e), None => e });
+                                continue;
+                            }
+                            Some(orig) => orig,
+                        };
+                        out.rewrites.push(RewriteLog { rule: "R25".into(), line: line_of(&orig), detail: format!("fragment of {} (a function not under contract) emitted verbatim as helper fn {} (verified against its own contract); everything else in that function is dropped", f.sig.ident, ol.name) });
+                        if !ol.subst.is_empty() {
+                            let mut tt = norm_m(&orig.to_token_stream());
+                            for (a, b) in &ol.subst {
+                                tt = subst_norm(&tt, &norm_str(a).unwrap_or_default(), b);
+                            }
+                            match syn::parse_str::<Expr>(&tt) {
+                                Ok(e) => { orig = e; }
+                                Err(e) => { out.error = Some(format!("outline {} substitution unparsable: {}", ol.name, e)); continue; }
+                            }
+                        }
+                        match syn::parse_str::<syn::ItemFn>(&format!("pub {} {{ }}", ol.header)) {
+                            Ok(mut hf) => {
+                                let hspec = u.fns.get(&ol.name).unwrap_or(&default_spec);
+                                let vhspec;
+                                let hspec = if vac { vhspec = vac_spec(hspec); &vhspec } else { hspec };
+                                if vac {
+                                    hf.sig.ident = syn::Ident::new(&format!("{}__vxvac", hf.sig.ident), proc_macro2::Span::call_site());
+                                }
+                                hf.block.stmts.push(Stmt::Expr(orig, None));
+                                let huid = format!("{}o{}", uid, oi);
+                                process_fn(ctx, u, &huid, &mut hf.attrs, &mut hf.sig, &mut hf.block, hspec, &mut out, &mut subs);
+                                texts.push(hf.to_token_stream().to_string());
+                            }
+                            Err(e) => { out.error = Some(format!("outline {} header unparsable: {}", ol.name, e)); }
+                        }
+                    }
+                    text = texts.join("\n");
+                } else {
                 process_fn(ctx, u, &uid, &mut f.attrs, &mut f.sig, &mut f.block, spec, &mut out, &mut subs);
                 text = f.to_token_stream().to_string();
+                }
             } else {
                 // R1: variants carrying thiserror's #[from] (collected before attributes are dropped)
                 let mut from_variants: Vec<String> = vec![];
